@@ -84,6 +84,13 @@ CHECKS = {
   design_ref="DESIGN.md §4 C08",
   technique="proptest structural generators + round-trip / cross-encoding differential oracle",
   note=TRUST + "; the projection is computed by the harness, not by the crate's Slate->SlateV4 conversion; armoring of large slates is sampled (base58 is quadratic)"),
+ "C06": dict(
+  engine="fault",
+  category="fault_enumeration",
+  text="For each generated scenario (wallet history + one target operation of 14 kinds) the persistent effects of the operation (LMDB batch commits, key-index bumps, stored-tx writes) are counted through a wrapper of the public backend traits and EVERY effect boundary is then faulted in every mode (crash before, crash after, write error, truncation of the stored-tx file); the wallet is reopened with the real lifecycle code and must load, answer every query without panic, keep reservations and live log entries consistent, allow the pending transaction to be cancelled with the reference spendable amount, and reach the chain's truth after a refresh. Exhaustive over fault points per scenario; scenarios are sampled.",
+  design_ref="DESIGN.md §4 C06",
+  technique="fault injection at every persistent-effect boundary (trait wrapper) over proptest-generated scenarios + reopen invariants",
+  note=TRUST + "; LMDB commit atomic+durable; process death modelled at effect boundaries by unwinding and dropping the instance; a panic provoked by an injected fault counts as a crash, not as a violation"),
 }
 
 hooks_commits = subprocess.run(["git", "-C", "/repo", "log", "--format=%h %s"], stdout=subprocess.PIPE, text=True).stdout.splitlines()
@@ -117,7 +124,7 @@ m = {
  },
  "engines": [
   {"name": "pbt", "path": "harness/src/rt.rs + harness/src/props", "serves_properties": [p for p in ids if p in CHECKS and CHECKS[p]["engine"].startswith("pbt")], "kind_free_text": "proptest strategies driven per case by TestRunner with a seed derived from (VERIF_SEED, property, part, tier, index); shrinking yields the replay file"},
-  {"name": "world", "path": "harness/src/world.rs + node.rs + snap.rs", "serves_properties": [p for p in ids if p in CHECKS and CHECKS[p]["engine"] == "world"], "kind_free_text": "stateful model-based: real grin chain + real LMDB wallets + thread-free node client, op sequences interpreted against the real API with invariants after every step"},
+  {"name": "world", "path": "harness/src/world.rs + node.rs + snap.rs", "serves_properties": [p for p in ids if p in CHECKS and CHECKS[p]["engine"] in ("world","fault")], "kind_free_text": "stateful model-based: real grin chain + real LMDB wallets + thread-free node client, op sequences interpreted against the real API with invariants after every step"},
  ],
  "checks": checks,
  "not_applicable": [{"property_id": p, "reason": NA.get(p, "check not built yet in this session (planned in DESIGN.md §4); not claimed")} for p in ids if p not in CHECKS],
